@@ -14,6 +14,10 @@
    Rows (first cell = kind):  [0; status]  [1 :: name] listing line  [2; size] [3 :: hash] list -vv
      [4; ok] [5 :: bytes] one cat  [6 :: tar bytes]  [7; ok; effect] per command on a failing open
      (effect 0 = output untouched, 1 = created empty, 2 = written)  [8 :: name] [9 :: content] members. *)
+From MLA Require Import Limit.
+From MLAGen Require Src.
+(* executable entry points: the production value of BINCODE_MAX_DESERIALIZE (the same in both flavours), file-local *)
+#[local] Instance RUN_LIMIT : Limit := MLAGen.Src.BINCODE_MAX_DESERIALIZE_prod.
 From MLA Require Import Base Stream Inst Blocks Writer Reader Format Ecies Archive Path Tar Cli CliProofs CompFailSafe Repair CliRepair.
 From MLA.Concrete Require Sha256.
 From MLAGen Require Src.
